@@ -97,6 +97,18 @@ CLAIMS = {
              "through changed bytes or faults; encoding/json trusted for expected bytes",
         engine="pool",
     ),
+    "C20": dict(
+        category="model_checking",
+        technique="TLA+ transducers for Quote/Unquote (both surrogate policies), HtmlEscape and the UTF-8 DFA/definition/correction (Str), "
+                  "inverse and equivalence laws checked by TLC on every class string to the bound; every string replayed with alignment "
+                  "paddings through the routines and through Marshal/Unmarshal, judged against the spec and the standard library",
+        text="TLC checks Unquote(Quote(s)) = s, HtmlEscape idempotence, DFA = Unicode definition and correction laws exhaustively to the "
+             "bound and emits each string with its expected output; the harness concretises with 0..65 bytes of ASCII padding on both "
+             "sides and compares the real routines (direct and via Marshal/Unmarshal, values and keys) with the spec and std.",
+        design_ref="DESIGN.md section 4 C20, section 11",
+        note="bounded class strings; alignment/length only through padding; escape spelling not compared; std library trusted",
+        engine="str",
+    ),
 }
 
 NOT_YET = "not yet claimed: check under construction (build phase), see DESIGN.md section 8"
